@@ -135,6 +135,8 @@ typedef struct {
 
     int mem_error;            /* set when garbage_stop fired */
     uint64_t error_bit_address;
+    int error_address_carry;  /* 1: the error bit-address is 2^64 + error_bit_address (w=64: an access
+                                 one word past the top of the address space, like the python loops report) */
 
     /* jump-target speculation measurement (FLIPJUMP_MEASURE_SPECULATION=1):
        per executed op, would a "last jump target per ip" predictor have missed? */
@@ -295,6 +297,7 @@ static inline int access_check(MemoryObject* m, Page* page, uint64_t word_addres
     }
     m->mem_error = 1;
     m->error_bit_address = word_address << m->ww;
+    m->error_address_carry = (word_address >> (64 - m->ww)) != 0;
     return 0;
 }
 
@@ -305,6 +308,7 @@ static inline int flat_garbage(MemoryObject* m, uint64_t word_address)
     }
     m->mem_error = 1;
     m->error_bit_address = word_address << m->ww;
+    m->error_address_carry = (word_address >> (64 - m->ww)) != 0;
     return 0;
 }
 
@@ -436,6 +440,7 @@ static inline int mem_get_word_unaligned(MemoryObject* m, uint64_t bit_address, 
            the python reference terminates with a memory error here */
         m->mem_error = 1;
         m->error_bit_address = bit_address;
+        m->error_address_carry = 0;
         return -1;
     }
     if (mem_read_word(m, word_address, &lsw) < 0) {
@@ -446,6 +451,21 @@ static inline int mem_get_word_unaligned(MemoryObject* m, uint64_t bit_address, 
     }
     *out = ((lsw >> bit_offset) | (msw << (m->w - bit_offset))) & m->word_mask;
     return 0;
+}
+
+/* read the jump word of the op at ip (the word at bit-address ip + w). at w=64 an op on the last
+   word of the address space has its jump word one word past the top: ip + w overflows 64 bits -
+   a memory error at bit-address 2^64 (what the python loops report), never a wrap to address 0. */
+static inline int mem_get_jump_word(MemoryObject* m, uint64_t ip, uint64_t* out)
+{
+    const uint64_t jump_bit_address = ip + (uint64_t)m->w;
+    if (jump_bit_address < ip) {
+        m->mem_error = 1;
+        m->error_bit_address = jump_bit_address & ~(uint64_t)(m->w - 1);
+        m->error_address_carry = 1;
+        return -1;
+    }
+    return mem_get_word_unaligned(m, jump_bit_address, out);
 }
 
 /* the effective flat-storage span limit: the constructor parameter, else the
@@ -654,6 +674,7 @@ static int Memory_init(PyObject* op, PyObject* args, PyObject* kwds)
     self->flat_covers_all = 0;
     self->mem_error = 0;
     self->error_bit_address = 0;
+    self->error_address_carry = 0;
     self->spec_measured = 0;
     self->spec_ops = 0;
     self->spec_first = 0;
@@ -950,7 +971,7 @@ static int run_measured_loop(MemoryObject* self, PyObject* read_bit, PyObject* w
         }
 
         /* read jump word (after the flip - the flip may modify it) */
-        if (mem_get_word_unaligned(self, ip + width, &j) < 0) {
+        if (mem_get_jump_word(self, ip, &j) < 0) {
             goto memory_error;
         }
         ops++;
@@ -1173,7 +1194,7 @@ static FJ_ALWAYS_INLINE int run_flat_loop_impl(MemoryObject* self, PyObject* rea
         goto flip_value_ready;
 
     cold_jump_word_slow:
-        if (mem_get_word_unaligned(self, ip + width, &cold_word) < 0) {
+        if (mem_get_jump_word(self, ip, &cold_word) < 0) {
             goto memory_error;
         }
         j = cold_word;
@@ -1351,7 +1372,7 @@ static FJ_ALWAYS_INLINE int run_paged_loop_impl(MemoryObject* self, PyObject* re
                 }
                 j = op_words[op_offset + 1];
             } else if (ip & bit_mask) {
-                if (mem_get_word_unaligned(self, ip + width, &cold_word) < 0) {
+                if (mem_get_jump_word(self, ip, &cold_word) < 0) {
                     goto memory_or_python_error;
                 }
                 j = cold_word;
@@ -1567,6 +1588,18 @@ static PyObject* build_run_result(MemoryObject* self, int cause, uint64_t ops, u
     }
     if (cause == TERM_MEMORY_ERROR) {
         error_address = PyLong_FromUnsignedLongLong(self->error_bit_address);
+        if (error_address && self->error_address_carry) {
+            /* the address is 2^64 + error_bit_address - it does not fit a uint64 */
+            PyObject* one = PyLong_FromLong(1);
+            PyObject* shift = PyLong_FromLong(64);
+            PyObject* carry = (one && shift) ? PyNumber_Lshift(one, shift) : NULL;
+            PyObject* full_address = carry ? PyNumber_Add(error_address, carry) : NULL;
+            Py_XDECREF(one);
+            Py_XDECREF(shift);
+            Py_XDECREF(carry);
+            Py_DECREF(error_address);
+            error_address = full_address;
+        }
     } else {
         error_address = Py_None;
         Py_INCREF(Py_None);
